@@ -428,3 +428,78 @@ def c16_4(I, shape):
         ok = False
     I.check(ok == (not closed and version == (3, 4)),
             "key-update-only-in-open-tls13-connections")
+
+
+# ---------------------------------------------------------------------------
+# C16.5  post-handshake authentication requests are remembered until answered
+# ---------------------------------------------------------------------------
+
+@obligation("C16.5", lambda tier: [dict(n=n) for n in (1, 2, 3)],
+            functions=["tlslite.tlsconnection:TLSConnection."
+                       "request_post_handshake_auth"],
+            assumes=CONN_ASSUMES + [
+                "TLS 1.3 server whose client announced post_handshake_auth; "
+                "n requests are issued before any answer is read; request "
+                "contexts come from getRandomBytes = pairwise different "
+                "concrete values (they are dictionary keys)"],
+            patches=lambda s: (conn_proxies(), []))
+def c16_5(I, shape):
+    """every outstanding CertificateRequest context stays known to the
+    server until it is answered, and preconditions are enforced"""
+    import tlslite.tlsconnection as tcm
+    n = shape["n"]
+    conn, sock = make_conn((3, 4), False)
+    conn._pha_supported = True
+    # contexts are dictionary keys (hashed): concrete, pairwise different
+    ctxs = [bytearray([0x40 + k]) * 32 for k in range(n)]
+    I.cover("concrete contexts")
+    it = iter(ctxs)
+    old = tcm.getRandomBytes
+    tcm.getRandomBytes = lambda k: newbuf(list(next(it)))
+    old_bytes = tcm.__dict__.get("bytes")
+    tcm.bytes = lambda x=b"": x if isinstance(x, SymBytes) else bytes(x)
+    try:
+        for _ in range(n):
+            for r in conn.request_post_handshake_auth():
+                pass
+    finally:
+        tcm.getRandomBytes = old
+        if old_bytes is None:
+            del tcm.bytes
+        else:
+            tcm.bytes = old_bytes
+    I.check(len(conn._cert_requests) == n,
+            "every-outstanding-request-is-remembered",
+            detail=lambda: dict(remembered=len(conn._cert_requests), n=n))
+    sent = split_records(sock.out)
+    reqs = [r for r in sent if r[0] == ContentType.handshake and
+            r[2][0] == HandshakeType.certificate_request]
+    I.check(len(reqs) == n, "one-certificate-request-per-call")
+    for k, r in enumerate(reqs):
+        I.check(r[2][4] == 32 and list(r[2][5:37]) == list(ctxs[k]),
+                "request-carries-its-context")
+    # preconditions
+    c2, _s = make_conn((3, 3), False)
+    c2._pha_supported = True
+    try:
+        for r in c2.request_post_handshake_auth():
+            pass
+        I.fail("pha-requested-on-tls12")
+    except ValueError:
+        pass
+    c3, _s = make_conn((3, 4), True)
+    c3._pha_supported = True
+    try:
+        for r in c3.request_post_handshake_auth():
+            pass
+        I.fail("pha-requested-by-client")
+    except ValueError:
+        pass
+    c4, _s = make_conn((3, 4), False)
+    c4._pha_supported = False
+    try:
+        for r in c4.request_post_handshake_auth():
+            pass
+        I.fail("pha-requested-without-client-support")
+    except ValueError:
+        pass
